@@ -44,7 +44,9 @@ def expect(kind, raw, ctx):
             return ("be", v)
         if tag in ("list", "dict", "none", "cmd", "type"):
             return ("fail", ("ParameterNotValid",))
-        return ("unspec", "bool / numpy scalar for a number")
+        if tag == "np":
+            return ("be-num", raw[2])  # a real number of another number type keeps its VALUE (decimals stay decimals)
+        return ("unspec", "bool for a number")
     if kind == "Bool":
         if tag == "bool":
             return ("be", raw[1])
